@@ -74,6 +74,7 @@ static int n_faults = 0;
 static long max_events = 20000;
 static long n_events = 0;
 static long short_read = 0;
+static long short_write = 0;
 static uint64_t dir_seed = 0;
 static long getrandom_calls = 0;
 /* wall clock: a fixed epoch plus simulated time, minus planned backward steps */
@@ -206,6 +207,9 @@ static void load_plan(const char *path) {
             max_events = strtol(arg, NULL, 10);
         } else if (!strcmp(line, "shortread")) {
             short_read = strtol(arg, NULL, 10);
+        } else if (!strcmp(line, "shortwrite")) {
+            /* shortwrite <n>: write(2) on a file the program created accepts at most n bytes per call */
+            short_write = strtol(arg, NULL, 10);
         } else if (!strcmp(line, "rtback")) {
             /* rtback <wall-clock read index> <ns>: the wall clock steps back (NTP, VM resume) */
             if (n_rt_back < 16) {
@@ -451,11 +455,13 @@ ssize_t write(int fd, const void *buf, size_t count) {
     const char *path = fd_paths[fd];
     budget_check();
     int err = planned_fault(C_WRITE, path);
-    if (err > 0) {
-        logev("write", path, -err);
-        errno = err;
+    if (err != 0) {
+        int e = err < 0 ? EINTR : err;
+        logev("write", path, -e);
+        errno = e;
         return -1;
     }
+    if (short_write > 0 && count > (size_t)short_write) count = (size_t)short_write;
     ssize_t r = real_write(fd, buf, count);
     int saved = errno;
     logev("write", path, r >= 0 ? (long long)r : -(long long)saved);
@@ -476,10 +482,24 @@ ssize_t writev(int fd, const struct iovec *iov, int iovcnt) {
     const char *path = fd_paths[fd];
     budget_check();
     int err = planned_fault(C_WRITE, path);
-    if (err > 0) {
-        logev("write", path, -err);
-        errno = err;
+    if (err != 0) {
+        int e = err < 0 ? EINTR : err;
+        logev("write", path, -e);
+        errno = e;
         return -1;
+    }
+    if (short_write > 0) {
+        /* a short vectored write: part of the first non-empty buffer */
+        for (int k = 0; k < iovcnt; k++) {
+            if (iov[k].iov_len > 0) {
+                size_t n = iov[k].iov_len > (size_t)short_write ? (size_t)short_write : iov[k].iov_len;
+                ssize_t r = real_write(fd, iov[k].iov_base, n);
+                int saved = errno;
+                logev("write", path, r >= 0 ? (long long)r : -(long long)saved);
+                errno = saved;
+                return r;
+            }
+        }
     }
     ssize_t r = real_writev(fd, iov, iovcnt);
     int saved = errno;
